@@ -1,5 +1,6 @@
 import WV.Proofs.C07_Inv
 import WV.Proofs.C07_Port
+import WV.Proofs.C07_Connect
 
 /-! `connect()` returns only a connection whose negotiation succeeded: the value a contender
 Deferred fires with, `_first_success`, and the result of `connect()` are always connections with
@@ -272,7 +273,8 @@ theorem startContenders_get2 (now : Nat) (hd : Bool) (all : List Contender) :
       · simp at h; simpa using ih seq j c' h
 
 theorem evConnect_RS {w w' : World} (h : RS w) (he : evConnect w = some w') : RS w' := by
-  unfold evConnect at he
+  rw [evConnect_eq] at he
+  unfold evConnectHead at he
   split at he
   · cases he
   · simp only [] at he
